@@ -640,6 +640,14 @@ def arrmac(tier, seed, params):
                 out.append("op=%s n=%d box=%d kind=copy" % (op, n, box))
                 if box:
                     out.append("op=%s n=%d box=%d kind=clone" % (op, n, box))
+        # zero-sized elements with a destructor: created = alive + dropped at every point
+        for k in (0, 1, 2, 3, 4, 5, 8, 17):
+            for tr in ((0, 1) if k <= 2 else (0,)):
+                out.append("op=list k=%d trail=%d box=%d kind=zst" % (k, tr, box))
+        if box:
+            for n in (0, 1, 2, 3, 8, 33):
+                for op in ("repty", "repconst"):
+                    out.append("op=%s n=%d box=%d kind=zst" % (op, n, box))
     return out
 
 
